@@ -352,7 +352,7 @@ def run_explore(job):
     cv = conv_of(cfg.get('chips'))
     stacks = tuple(cv(s) for s in cfg['stacks'])
     sub = job['sub']
-    o = mk_opts(raises='minmax', show=(None, True, False) if sub != 'unknown-cards' else (None,),
+    o = mk_opts(raises='minmax', show=((None, True, False, 'facedown') if cfg['mode'] == 'cash' else (None, True, False)) if sub != 'unknown-cards' else (None,),
                 deal='mix' if sub == 'unknown-cards' else 'default',
                 discards=('none', 'first', 'all') if cfg['code'] in ('N2L1D', 'F2L3D', 'FB') else ('none',),
                 runouts=(None,), show_players=(None, False) if sub != 'unknown-cards' else False)
